@@ -341,6 +341,13 @@ def _run_case(case):
         attempts.append(("C01/value/INTEGER-DIVISION", ctx, X.realify_divisions(e)))
         for sig0, c0, e0 in base:
             attempts.append((sig0, c0, X.realify_divisions(e0)))
+    if X.has_int_arith(e):
+        # T4: + - * on two INTEGER-typed operands wrap at 16 bits in BASIC09 (same root cause as T3)
+        base = list(attempts)
+        attempts.append(("C01/value/INTEGER-OVERFLOW", ctx, X.realify_arith(e)))
+        for sig0, c0, e0 in base:
+            if sig0 != "C01/value/INTEGER-DIVISION":
+                attempts.append((sig0 if sig0.startswith("C01/value/INTEGER") else "C01/value/INTEGER-OVERFLOW", c0, X.realify_arith(e0)))
     for sig, c2, e2 in attempts:
         r2 = evaluate(c2, e2)
         if r2["status"] in ("held", "dropped", "refused"):
